@@ -140,6 +140,14 @@ def run_case(case: dict) -> dict:
             elif o == "write1017":
                 lnode.sdo[0x1017].raw = op["ms"]
                 log({"e": o, "ms": op["ms"]})
+            elif o == "write1017_bad":
+                # a download of the wrong length is refused: the producer goes on exactly as before
+                refused = False
+                try:
+                    lnode.sdo.download(0x1017, 0, op["ms"].to_bytes(op["len"], "little"))
+                except Exception:  # noqa
+                    refused = True
+                log({"e": o, "ms": op["ms"], "refused": refused})
             elif o == "nmt":
                 if op["api"]:
                     lnode.nmt.state = NAMES[op["state"]]
